@@ -123,6 +123,11 @@ pub fn gen(seed: u64, tier: Tier) -> ScenarioSpec {
         rec.force_gecko = true;
         rec.gecko = Some(GeckoSpec { len: 1 + rng.below(1500) as u32, pseed: rng.next_u64() });
     }
+    // a recording that simply stops (power cut) usually stops inside a frame, not between two
+    if rec.end == EndKind::None && !rec.frames.is_empty() && rng.chance(1, 12) {
+        rec.cut_last_frame = 1 + rng.below(4) as u8;
+        rec.extras = Extras::default();
+    }
     // "any accepted game": metadata shapes at the edge of what the reader accepts (many maps, deepest chain)
     match rng.below(40) {
         0 => {
@@ -162,6 +167,7 @@ pub fn run(spec: &ScenarioSpec, ctx: &mut Ctx) -> Result<(), Violation> {
     ctx.probe_if(has_unknown, "unknown events in the stream");
     ctx.probe_if(irr.junk_after_end > 0 && m.end.is_some(), "junk after Game End inside the raw element");
     ctx.probe_if(irr.perm_pseed.is_some(), "non-canonical event order inside frames");
+    ctx.probe_if(spec.recorder.cut_last_frame > 0 && m.end.is_none(), "recording stops inside its last frame");
     let edges = m.edges();
     prelude(spec.knob("prelude"), spec.seed, &m, ctx);
     let mut ro = read_slp_noopts(&m.bytes, &spec.stream, &edges);
